@@ -87,8 +87,8 @@ fn exec_edge(v: &Value, nh: usize, maxbufs: usize, statics: &[Vec<u8>], variants
                 diffs.push("end".into());
             }
             // the specification must agree with std String (else the spec is wrong)
-            let failed = r.cls == "err" || (r.cls == "panic" && r.msg == "reserve");
-            let exp_failed = exp_c["cls"] == "err" || (exp_c["cls"] == "panic" && exp_c["msg"] == "reserve");
+            let failed = (r.cls == "err" || r.cls == "panic") && r.msg == "reserve";
+            let exp_failed = (exp_c["cls"] == "err" || exp_c["cls"] == "panic") && exp_c["msg"] == "reserve";
             let mut spec_error = Value::Null;
             // (only an execution in which the crate matched the model exactly can testify against the
             // specification: a deviating crate may have corrupted the process it shares with String)
